@@ -17,7 +17,7 @@ def verdict_rule(ck, F, rule):
     V = AN.verify_full(F)
     I = V["I"]
     ck.fn(AN.H.P_VER + "verify_and_return_transcript")
-    msms = [m for m in I.msm_log if m["fn"].endswith("verify_and_return_transcript")]
+    msms = list(I.msm_log)  # the run interprets verify_and_return_transcript only: its whole dynamic extent counts (the check may live in a helper)
     ck.require(len(msms) == 1, rule, "single-msm", f"expected one combined multiscalar check in verify, found {len(msms)}")
     guards, final = AN.exit_chain(I, V["ret"], lambda f: f.endswith("verify_and_return_transcript"))
     last = guards[-1] if guards else None
